@@ -33,7 +33,7 @@ import core
 
 MANIFEST = dict(
     technique="TLA+ spec over code points (Deb822Value: statement layer + transcription of validate_input, _dump_format and the iter_paragraphs reader for str and file input with both whitespace settings) model-checked by TLC; bounded-exhaustive CASE lines replayed into Deb822/Dsc; recorded assignment histories validated by TLC (TraceDeb822Value)",
-    text="TLC enumerates every value up to length 5 (quick) / 6 (thorough) over the seven symbols x : # space tab CR LF, assigns it to the first, middle and last field of a three-field paragraph and checks on the transcription of the code that an accepted value, dumped and read back by the character-level model of iter_paragraphs (str.splitlines for str input, LF-terminated lines for file input), gives exactly one paragraph with the same field names when whitespace-only lines do not separate paragraphs, and under the default setting too when no continuation line is blank (Sound); that the three defects named by the statement imply rejection and that the validator's scanner equals the declarative characterisation (RejectComplete, RejectExact); that rejection leaves the paragraph unchanged. Every CASE line (value, classification accept/blank/zone/reject, expected key list) is replayed into the real Deb822 and Dsc classes at all three positions with several concretizations of x, the dump being read back from str, io.StringIO and io.BytesIO under both settings; assignment histories recorded from the real classes on random domain text up to 40 characters are validated by TLC on the concrete code points.",
+    text="TLC enumerates every value up to length 5 (quick) / 6 (thorough) over the seven symbols x : # space tab CR LF, assigns it to the first, middle and last field of a three-field paragraph and checks on the transcription of the code that an accepted value, dumped and read back by the character-level model of iter_paragraphs (str.splitlines for str input, LF-terminated lines for file input), gives exactly one paragraph with the same field names when whitespace-only lines do not separate paragraphs, and under the default setting too when no continuation line is blank (Sound); that the three defects named by the statement imply rejection and that the validator's scanner equals the declarative characterisation (RejectComplete, RejectExact); that rejection leaves the paragraph unchanged. Every CASE line (value, classification accept/blank/zone/reject, expected key list) is replayed into the real Deb822 and Dsc classes (all three positions for what is accepted, several concretizations of x, d[k]=v and update()), the dump being read back from str, io.StringIO and io.BytesIO under both settings; assignment histories recorded from the real classes on random domain text up to 40 characters (4 000 values quick / 50 000 thorough, neighbour fields holding accepted multi-line values) are validated by TLC on the concrete code points, where the reader and validator models are evaluated as well.",
     note="Small scope: values <= 6 symbols exhaustively, longer ones sampled (traces); neighbour fields are 'x' in the model, richer in the traces. Unspecified (executed, never judged on acceptance): 'zone' = a lone CR followed by something that is not indentation (a defect only if CR ends a line; rejected today) and 'blank' = a whitespace-only continuation line (accepted today); whatever is accepted must still read back as one paragraph with the same keys. Default-setting read-back is judged only when no value of the paragraph has a blank continuation line. Characters outside the property's domain (NBSP, VT, FF, U+0085, U+2028, other Unicode whitespace) are never generated. Trusted: TLC, the projections (list(d.items()), key lists of the paragraphs read back), the concretizer. Spec-level negative controls and corrupted control traces are run in every check.",
     design="5 (C08)")
 
@@ -232,6 +232,53 @@ def check_case(case, clsname, pos, conc, route="setitem", stats=None):
     return None, drift
 
 
+CASE_CHUNK = 1500
+
+
+def replay_chunk(payload):
+    """worker: replay a chunk of CASE lines; everything it needs comes with the payload"""
+    import random
+    import traceback
+    seed, tier, off, chunk = payload
+    quick = tier == "quick"
+    rng = random.Random("C08-%s-cases-%d" % (seed, off))
+    out = {"n": 0, "stats": {}, "drift": [], "violations": []}
+    stats = {}
+    try:
+        for j, c in enumerate(chunk):
+            idx = off + j
+            v = c["v"]
+            # canonical concretization: all three positions for what is accepted and read back,
+            # one rotating position for the values the statement wants rejected
+            canon_pos = (1, 2, 3) if c["cls"] in ("accept", "blank") else (1 + idx % 3,)
+            jobs = [("Deb822", pos, Conc(value=v), "setitem") for pos in canon_pos]
+            # rotating extras: other class / other concretization / update() route
+            k = idx % 6
+            extra_pos = 1 + (idx // 6) % 3
+            if k < 3:
+                jobs.append(("Dsc", extra_pos, Conc(rng, v, canonical=(k == 0)), "setitem"))
+            elif k < 5:
+                jobs.append(("Deb822", extra_pos, Conc(rng, v, canonical=False), "setitem"))
+            else:
+                jobs.append(("Deb822", extra_pos, Conc(rng, v, canonical=False), "update"))
+            if not quick:
+                jobs.append(("Dsc" if idx % 2 else "Deb822", 1 + (idx // 2) % 3, Conc(rng, v, canonical=False), "setitem"))
+            for clsname, pos, conc, route in jobs:
+                msg, drift = check_case(c, clsname, pos, conc, route, stats)
+                out["n"] += 1
+                if drift and len(out["drift"]) < 3:
+                    out["drift"].append(drift[0])
+                if msg:
+                    if len(out["violations"]) < 3:
+                        out["violations"].append(({"kind": "case", "case": c, "cls": clsname, "pos": pos,
+                                                   "conc": conc.to_json(), "route": route}, msg))
+                    break
+        out["stats"] = {"%s/%s" % k: n for k, n in stats.items()}
+    except Exception:                                                # noqa: BLE001  harness bug, not an observation
+        out["crash"] = traceback.format_exc()
+    return out
+
+
 def _formname(f):
     return {"s": "str", "f": "io.StringIO", "b": "io.BytesIO"}[f]
 
@@ -374,7 +421,7 @@ def record_trace(rng, clsname, nev, script=None):
 
 
 def slim(t):
-    return {"init": t["init"], "events": t["events"]}
+    return {"init": t["init"], "deep": t.get("deep", True), "events": t["events"]}
 
 
 def _ev(pos, v, acc, items, rb=None, res=None):
@@ -392,7 +439,7 @@ def _rb(keys, **over):
 P3 = [["A", "x"], ["B", "x"], ["C", "x"]]
 K3 = ["A", "B", "C"]
 # literal traces: what the real code does today on four assignments -- must be accepted
-GOOD_TRACE = {"init": enc_para(P3), "events": [
+GOOD_TRACE = {"init": enc_para(P3), "deep": True, "events": [
     _ev(2, "y\n z: w", True, [["A", "x"], ["B", "y\n z: w"], ["C", "x"]], _rb(K3)),
     _ev(1, "y\nz: w", False, [["A", "x"], ["B", "y\n z: w"], ["C", "x"]]),
     _ev(3, "y\n \n z", True, [["A", "x"], ["B", "y\n z: w"], ["C", "y\n \n z"]],
@@ -405,24 +452,24 @@ def control_traces():
     """corrupted literal traces: each must be rejected by TraceDeb822Value"""
     out = []
     # an injecting value reported as accepted, with the read-back it would give
-    out.append({"init": enc_para(P3), "events": [
+    out.append({"init": enc_para(P3), "deep": True, "events": [
         _ev(2, "y\nz: w", True, [["A", "x"], ["B", "y\nz: w"], ["C", "x"]], _rb(K3, **{n: [["A", "B", "z", "C"]] for n in RBNAMES}))]})
     # ... and with a read-back that hides it: acceptance alone must be rejected
-    out.append({"init": enc_para(P3), "events": [
+    out.append({"init": enc_para(P3), "deep": True, "events": [
         _ev(2, "y\nz: w", True, [["A", "x"], ["B", "y\nz: w"], ["C", "x"]], _rb(K3))]})
     # a clean value reported as rejected
-    out.append({"init": enc_para(P3), "events": [_ev(2, "y\n z", False, P3)]})
+    out.append({"init": enc_para(P3), "deep": True, "events": [_ev(2, "y\n z", False, P3)]})
     # accepted, but one read-back shows an extra field / a split / a truncation
-    out.append({"init": enc_para(P3), "events": [
+    out.append({"init": enc_para(P3), "deep": True, "events": [
         _ev(2, "y\n z: w", True, [["A", "x"], ["B", "y\n z: w"], ["C", "x"]], _rb(K3, fF=[["A", "B", "z", "C"]]))]})
-    out.append({"init": enc_para(P3), "events": [
+    out.append({"init": enc_para(P3), "deep": True, "events": [
         _ev(2, "y\n z", True, [["A", "x"], ["B", "y\n z"], ["C", "x"]], _rb(K3, sT=[["A", "B"], ["C"]]))]})
-    out.append({"init": enc_para(P3), "events": [
+    out.append({"init": enc_para(P3), "deep": True, "events": [
         _ev(2, "y\n z", True, [["A", "x"], ["B", "y\n z"], ["C", "x"]], _rb(K3, bF=[["A", "B"]]))]})
     # rejected, but the paragraph changed
-    out.append({"init": enc_para(P3), "events": [_ev(2, "y\n", False, [["A", "x"], ["B", "y\n"], ["C", "x"]])]})
+    out.append({"init": enc_para(P3), "deep": True, "events": [_ev(2, "y\n", False, [["A", "x"], ["B", "y\n"], ["C", "x"]])]})
     # wrong exception type
-    out.append({"init": enc_para(P3), "events": [_ev(2, "y\n", False, P3, res="EXC:TypeError")]})
+    out.append({"init": enc_para(P3), "deep": True, "events": [_ev(2, "y\n", False, P3, res="EXC:TypeError")]})
     return out
 
 
@@ -526,14 +573,19 @@ def run(ctx):
     workers = min(8, core.NCPU)
     phase = {}
     t_ph = time.time()
+    # worker processes for the CASE replay are forked now, before any thread exists
+    import multiprocessing
+    pool = multiprocessing.get_context("fork").Pool(min(4 if quick else 6, core.NCPU))
 
     # 1. (b) code -> spec: assignment histories are recorded first; TLC validates them on the
     #    code points in the background while the bounded configuration runs and is replayed
-    ntr, nev = (500, 8) if quick else (16000, 12)
+    ntr, nev, deep_every = (500, 8, 1) if quick else (5000, 10, 4)
     traces = [record_trace(rng, CLASSES[i % 2], nev) for i in range(ntr)]
+    for i, t in enumerate(traces):
+        t["deep"] = (i % deep_every == 0)         # reader model evaluated by TLC on these (diagnostic)
     phase["trace_record_s"] = round(time.time() - t_ph, 1)
     t_ph = time.time()
-    chunk = 4000
+    chunk = 3500
 
     def validate_all():
         res = []
@@ -545,14 +597,18 @@ def run(ctx):
 
     # 2. spec-level negative controls and the bounded configuration, side by side
     try:
-        with ThreadPoolExecutor(max_workers=2) as ex:
+        with ThreadPoolExecutor(max_workers=3) as ex:
             f_neg = ex.submit(spec_negative_controls, ctx)
             f_bnd = ex.submit(ctx.tlc_must_hold, "Deb822Value",
                               "MC_Deb822Value_quick.cfg" if quick else "MC_Deb822Value.cfg",
                               workers=workers, want_tags={"CASE"})
+            f_zone = None if quick else ex.submit(ctx.tlc_must_hold, "Deb822Value", "MC_Deb822Value_zone.cfg",
+                                                  workers=2, want_tags={"CASE"})
             f_neg.result()
             r_bnd = f_bnd.result()
+            r_zone = f_zone.result() if f_zone else None
     except BaseException:
+        pool.terminate()
         ex_val.shutdown(wait=True)
         raise
     cases = r_bnd.printed.get("CASE", [])
@@ -564,45 +620,40 @@ def run(ctx):
         zones[c["cls"]] = zones.get(c["cls"], 0) + 1
     ctx.extra["model"] = {"alphabet": [120, 58, 35, 32, 9, 13, 10], "max_len": maxlen, "values": len(cases),
                           "classes": zones,
-                          "zone_values_that_would_be_sound_if_accepted": (None if quick else sum(1 for c in cases if c["cls"] == "zone" and c["zs"])),
+                          "zone_what_if_len4": (None if r_zone is None else {
+                              "zone_values": sum(1 for c in r_zone.printed.get("CASE", []) if c["cls"] == "zone"),
+                              "would_read_back_clean_if_accepted": sum(1 for c in r_zone.printed.get("CASE", []) if c["cls"] == "zone" and c["zs"])}),
                           "positions": 3, "forms": ["str", "file(LF)"], "ws": [False, True]}
     phase["tlc_bounded+controls_s"] = round(time.time() - t_ph, 1)
     t_ph = time.time()
 
-    # 3. (a) every CASE line into the real classes
+    # 3. (a) every CASE line into the real classes (worker processes, fixed chunks with their own
+    #    seeded generators: the result does not depend on the number of processes)
     stats = {}
     n_checked = 0
     n_bad = 0
     sampled = set()
+    payloads = [(ctx.seed, ctx.tier, off, cases[off:off + CASE_CHUNK]) for off in range(0, len(cases), CASE_CHUNK)]
+    try:
+        chunk_results = list(pool.imap(replay_chunk, payloads))
+    finally:
+        pool.close()
+        pool.join()
+    for r in chunk_results:
+        if r.get("crash"):
+            raise core.MachineryError("case replay worker failed:\n" + r["crash"])
+        n_checked += r["n"]
+        for k, n in r["stats"].items():
+            stats[k] = stats.get(k, 0) + n
+        for dmsg in r["drift"][:3]:
+            ctx.drift(dmsg)
+        for vcase, msg in r["violations"]:
+            if n_bad < 3:
+                ctx.violation(vcase, msg)
+            n_bad += 1
     for idx, c in enumerate(cases):
-        if n_bad >= 3:
-            break
         v = c["v"]
         nontrivial = any(x in (10, 13) for x in v)
-        # canonical concretization: all three positions (quick: one rotating position for the
-        # values the statement wants rejected -- nothing is read back there)
-        canon_pos = (1, 2, 3) if (not quick or c["cls"] in ("accept", "blank")) else (1 + idx % 3,)
-        jobs = [("Deb822", pos, Conc(value=v), "setitem") for pos in canon_pos]
-        # one rotating extra: other class / other concretization / update() route
-        k = idx % 6
-        extra_pos = 1 + (idx // 6) % 3
-        if k < 3:
-            jobs.append(("Dsc", extra_pos, Conc(rng, v, canonical=(k == 0)), "setitem"))
-        elif k < 5:
-            jobs.append(("Deb822", extra_pos, Conc(rng, v, canonical=False), "setitem"))
-        else:
-            jobs.append(("Deb822", extra_pos, Conc(rng, v, canonical=False), "update"))
-        if not quick:
-            jobs.append(("Dsc" if idx % 2 else "Deb822", 1 + (idx // 2) % 3, Conc(rng, v, canonical=False), "setitem"))
-        for clsname, pos, conc, route in jobs:
-            msg, drift = check_case(c, clsname, pos, conc, route, stats)
-            n_checked += 1
-            for dmsg in drift[:1]:
-                ctx.drift(dmsg)
-            if msg:
-                n_bad += 1
-                ctx.violation({"kind": "case", "case": c, "cls": clsname, "pos": pos, "conc": conc.to_json(), "route": route}, msg)
-                break
         ctx.case_seen(("case", tuple(v)), nontrivial)
         if c["cls"] not in sampled and len(v) >= 4 and nontrivial:
             sampled.add(c["cls"])
@@ -610,7 +661,8 @@ def run(ctx):
                 idx, show(txt(v)), c["cls"], "ok" if c["acc"] else "ValueError",
                 "; read back as one paragraph %s from str/StringIO/BytesIO" % show(["A", "B", "C"]) if c["acc"] else "; items() unchanged"))
     ctx.extra["case_replays"] = n_checked
-    ctx.extra["outcomes_per_class"] = {"%s/%s" % k: n for k, n in sorted(stats.items())}
+    ctx.extra["case_replay_violations"] = n_bad
+    ctx.extra["outcomes_per_class"] = {k: n for k, n in sorted(stats.items())}
     ctx.evaluations += max(0, n_checked - len(cases))
     phase["case_replay_s"] = round(time.time() - t_ph, 1)
 
@@ -644,7 +696,8 @@ def run(ctx):
     t0 = traces[0]
     ctx.sample("recorded %s trace, first events: %s" % (t0["cls"], "; ".join(_evshow(t0, i) for i in range(min(3, len(t0["events"]))))))
     ctx.extra["traces_recorded"] = len(traces)
-    ctx.extra["trace_values"] = {"assigned": nvals, "accepted": nacc, "max_len": max(len(e["v"]) for t in traces for e in t["events"])}
+    ctx.extra["trace_values"] = {"assigned": nvals, "accepted": nacc, "max_len": max(len(e["v"]) for t in traces for e in t["events"]),
+                                 "reader_model_evaluated_on": sum(len(t["events"]) for t in traces if t["deep"])}
     ctx.extra["traces_rejected"] = n_rej
     ctx.extra["model_vs_observation_differences"] = n_diff
     ctx.tlc_runs.sort(key=lambda x: (x["module"], x["violated"] is not None, -x["generated"]))   # completion order varies
